@@ -113,6 +113,8 @@ def run(facts, rep, ctx):
         elif name == "LZ13" and sizes and thr:
             # longer forms are only used for lengths >= 0x11, far above their size
             rep.ok(R4, {"encoder": name, "token_sizes": sorted(sizes), "threshold": sorted(thr)})
+        elif not sizes or not thr:
+            rep.inconc(R4, "%s: token sizes / threshold not recognised" % name)
         else:
             rep.violation(R4, b.name, "expansion", "%s can spend %s bytes on a reference covering only %s" % (name, sorted(sizes), sorted(thr)), where)
     # ---- R10.5: one flag byte per eight tokens, none without a token ------------------------------------
